@@ -238,7 +238,7 @@ def _subst_types(obj, tmap, doc=None):
         if isinstance(x, list):
             return [walk(v, typed) for v in x]
         if isinstance(x, dict):
-            return {k: walk(v, typed or k in _TYPE_FIELDS) if not (k in ('path', 'key', 'name', 'crate', 'k', 'f', 'adt', 'variant', 'op', 'cast')) else v
+            return {k: walk(v, typed or k in _TYPE_FIELDS) if not (k in ('path', 'key', 'name', 'crate', 'k', 'f', 'adt', 'variant', 'op', 'cast') and isinstance(v, str)) else v
                     for k, v in x.items()}
         return x
     return walk(obj, False)
@@ -555,7 +555,7 @@ def _ty_args(ty):
     return _split_top(ty[i + 1:-1]) if i >= 0 and ty.endswith('>') else []
 
 
-def _applied(b, by_key, fop):
+def _applied(b, by_key, fop, _depth=0):
     """what a function-valued operand denotes: ('ctor', fn desc) | ('fn', operand) | ('closure', key, env operand) | None"""
     if fop.get('k') == 'const' and fop.get('fn'):
         ffn = fop['fn']
@@ -571,6 +571,11 @@ def _applied(b, by_key, fop):
         defs = [st for bb in b['blocks'] for st in bb['stmts'] if st['k'] == 'assign' and st['place'] == {'l': cl, 'p': []}]
         if len(defs) == 1 and defs[0]['rv']['k'] == 'aggregate' and defs[0]['rv'].get('agg') == 'closure' and defs[0]['rv']['closure'] in by_key:
             return ('closure', defs[0]['rv']['closure'], fop)
+        # the closure value handed on through a plain move (parameter of an inlined helper)
+        if len(defs) == 1 and defs[0]['rv']['k'] == 'use' and defs[0]['rv']['op'].get('k') == 'move' and not defs[0]['rv']['op']['place']['p'] and _depth < 4:
+            r = _applied(b, by_key, defs[0]['rv']['op'], _depth + 1)
+            if r is not None and r[0] == 'closure':
+                return ('closure', r[1], fop)
     return None
 
 
@@ -1273,4 +1278,91 @@ def expand_find_map(doc):
             inline_call(b, B, cb, doc)
             n += 1
     doc.setdefault('meta', {})['expanded_find_map'] = n
+    return doc
+
+
+
+# ======================================================================================================================
+# N5b a private type that moved to another module keeps its pinned path: a pinned struct that is gone and exactly one new
+#     struct of the same name with the same field types is the same type (paths inside every type string and key follow).
+def pinned_adt_paths(doc):
+    pinned = pinned_keys()
+    crate = (doc.get('meta') or {}).get('crate', 'hpke')
+    padts = pinned.get(crate + ':adts') or {}
+    if not padts:
+        return doc
+    cur = {a['path']: a for a in doc.get('adts', [])}
+    missing = [p_ for p_ in padts if p_ not in cur]
+    # exported types are API: their path is not normalised away
+    new = [a for a in doc.get('adts', []) if a['path'] not in padts and a.get('kind') == 'Struct' and len(a.get('variants', [])) == 1 and not a.get('exported')]
+    ren = {}
+    for mp in missing:
+        want = [x[1] for x in padts[mp]]
+        name = mp.rsplit('::', 1)[-1]
+        cands = [a for a in new if a['path'].rsplit('::', 1)[-1] == name and a['path'] not in ren]
+        if len(cands) != 1:
+            continue
+        a = cands[0]
+        # field types may mention the type's own (new) path or other moved types: compare modulo the candidate rename
+        got = [f['ty'].replace(a['path'], mp) for f in a['variants'][0]['fields']]
+        if got == want:
+            ren[a['path']] = mp
+    if not ren:
+        return doc
+    out = {}
+    for k in ('bodies', 'impls', 'adts', 'api', 'traits', 'consts', 'statics', 'derived', 'unsafe_sites'):
+        if k in doc:
+            s = json.dumps(doc[k], separators=(',', ':'))
+            for old, newp in sorted(ren.items(), key=lambda kv: -len(kv[0])):
+                s = re.sub(r'(?<![\w:])' + re.escape(old) + r'(?![\w])', newp, s)
+            doc[k] = json.loads(s)
+    doc.setdefault('meta', {})['moved_types'] = ren
+    return doc
+
+
+
+# N3g `f(args)` through the Fn* traits on a closure literal (a closure handed to an inlined helper) is the closure body
+def expand_closure_calls(doc):
+    bodies = doc['bodies']
+    by_key = {b['key']: b for b in bodies}
+    crate = (doc.get('meta') or {}).get('crate', 'hpke')
+    n = 0
+    for b in bodies:
+        blocks = b['blocks']
+        for bi in range(len(blocks)):
+            blk = blocks[bi]
+            t = blk['term']
+            if t.get('k') != 'call' or blk.get('cleanup') or t.get('target') is None or len(t.get('args', [])) != 2:
+                continue
+            fn = (t.get('func') or {}).get('fn') or {}
+            if fn.get('trait') not in ('core::ops::FnOnce', 'core::ops::FnMut', 'core::ops::Fn') or fn.get('name') not in ('call_once', 'call_mut', 'call'):
+                continue
+            fop, tup = t['args']
+            app = _applied(b, by_key, fop)
+            if app is None or app[0] != 'closure':
+                continue
+            ck = app[1]
+            cb = by_key[ck]
+            tty = t['arg_tys'][1]
+            if not (tty.startswith('(') and tty.endswith(')')) or tup.get('k') != 'move' or tup['place']['p']:
+                continue
+            parts = _split_top(tty[1:-1])
+            if len(parts) != cb['arg_count'] - 1:
+                continue
+            env_ty = cb['locals'][1]['ty'] if len(cb['locals']) > 1 else ''
+            envop = app[2]
+            line = t.get('line')
+            if env_ty.startswith('&') and envop.get('k') == 'move' and not t['arg_tys'][0].startswith('&'):
+                b['locals'].append({'ty': env_ty, 'ty_raw': env_ty, 'name': None, 'mut': True, 'synthetic': True})
+                e_l = len(b['locals']) - 1
+                blk['stmts'].append({'k': 'assign', 'place': {'l': e_l, 'p': []}, 'rv': {'k': 'ref', 'mut': env_ty.startswith('&mut'), 'fake': False, 'place': envop['place']},
+                                     'line': line, 'exp': False, 'syn': 'call'})
+                envop = {'k': 'move', 'place': {'l': e_l, 'p': []}}
+            args = [envop] + [{'k': 'move', 'place': {'l': tup['place']['l'], 'p': [{'f': str(i), 'i': i, 'ty': ty, 'adt': None}]}} for i, ty in enumerate(parts)]
+            cfn = {'path': ck, 'path_args': ck, 'key': ck, 'crate': crate, 'local': True, 'name': ck.rsplit('::', 1)[-1], 'generic_args': [], 'def_kind': 'Closure',
+                   'resolved': {'path': ck, 'key': ck, 'local': True, 'crate': crate, 'kind': 'closure', 'desc': 'item'}}
+            blk['term'] = dict(t, func={'k': 'const', 'ty': 'closure', 'text': ck, 'fn': cfn}, args=args, arg_tys=[env_ty] + parts, syn='call')
+            inline_call(b, bi, cb, doc)
+            n += 1
+    doc.setdefault('meta', {})['expanded_closure_calls'] = n
     return doc
